@@ -1,0 +1,14 @@
+//go:build verif
+
+package sampling
+
+// VerifKey, when set by a verification harness (build tag verif), supplies the key of
+// every PRNG created by NewPRNG, which makes internally created randomness replayable.
+var VerifKey func() []byte
+
+func verifKey() []byte {
+	if VerifKey != nil {
+		return VerifKey()
+	}
+	return nil
+}
